@@ -56,7 +56,11 @@ def match_known(known, failure):
        - it has "clause"/"requires": same clause and all required opcodes occur in the program."""
     for k in known:
         s = k["signature"]
-        if "sig" in s:
+        if "sig_re" in s:
+            import re
+            if failure.get("sig") and re.search(s["sig_re"], failure["sig"]):
+                return k
+        elif "sig" in s:
             if failure.get("sig") == s["sig"]:
                 return k
         else:
